@@ -489,6 +489,22 @@ impl ChainPoller {
 //@with
     
 //@end
+// the height the parent is asked for at (BlockSource::get_header may rely on the hint to find the header): one below the header's own
+//@extract lightning-block-sync/src/poll.rs :: impl Poll for ChainPoller :: fn look_up_previous_header
+//@slice R15
+    let height = $h:seq; let previous_header = self .block_source .get_header(previous_hash, Some(height))
+//@with
+    fn height_the_parent_is_asked_for_at(header: &ValidatedBlockHeader) -> u32 { let height = $h; height }
+//@ret r
+//@requires
+    header.inner.height > 0,
+//@ensures P C20 the-parent-of-a-header-is-requested-from-the-source-at-the-height-one-below-the-headers-own
+    r as int == header.inner.height - 1,
+//@mutant parent_requested_at_the_childs_own_height
+    let height = header.height - 1;
+//@with
+    let height = header.height;
+//@end
 }
 // ---- find_difference_from_best_block: at which height the k-th remembered ancestor of a stale listener tip is looked up ----
 //@extract lightning-block-sync/src/lib.rs :: impl ChainNotifier :: fn find_difference_from_best_block
